@@ -39,6 +39,7 @@ type c06Case struct {
 	Cut    bool        `json:"cut"`
 	Resume int64       `json:"resume"`
 	Skip   bool        `json:"skip"`
+	Op     string      `json:"op"` // "direct": the start state is set as given; "tail"/"reset": established by the real initJobOffset
 	Exp    [][]c06Line `json:"exp"`
 }
 
@@ -112,8 +113,23 @@ func c06Run(dir string, id int, c *c06Case, jp *jobProvider, lg *zap.SugaredLogg
 		mu:         &sync.Mutex{},
 		isDone:     false,
 	}
-	// resume: what initJobOffset does for offsets_op=continue with a saved offset
-	job.seek(c.Resume, 0, "verif resume")
+	switch c.Op {
+	case "tail", "reset":
+		// the REAL start-state code for this offsets_op; the specification says which state it must leave
+		job.shouldSkip.Store(false)
+		op := offsetsOpTail
+		if c.Op == "reset" {
+			op = offsetsOpReset
+		}
+		jp.initJobOffset(op, job)
+		if job.curOffset != c.Resume || job.shouldSkip.Load() != c.Skip {
+			return &c06Mismatch{Kind: "init_state_differs", Case: *c, Round: 0,
+				Extra: map[string]interface{}{"offsets_op": c.Op, "offset": job.curOffset, "skip": job.shouldSkip.Load()}}
+		}
+	default:
+		// resume: what initJobOffset does for offsets_op=continue with a saved offset
+		job.seek(c.Resume, 0, "verif resume")
+	}
 	jp.jobsMu.Lock()
 	jp.jobs[job.sourceID] = job
 	jp.jobsMu.Unlock()
